@@ -4,13 +4,21 @@
  *   C09_PRINT     hex of the bytes to print on stdout
  *   C09_EXIT      exit status
  *   C09_SLEEP_DS  tenths of a second to sleep before exiting (timeout test)
- *   C09_TERM      what to do on SIGTERM: "t0".."t3" = catch it and exit 0..3 at once, "ti" = ignore it, else default action
+ *   C09_TERM      what to do on SIGTERM: "t0".."t3" = catch it and exit 0..3 at once, "ti" = ignore it, else default action;
+ *                 "r<n>" = after printing, die by signal <n> (no exit code at all);
+ *                 "fk" = a script plugin blocked in an external command: fork a child that inherits stdout, records ITS pid in
+ *                 "<file>.pid" and sleeps; the parent waits for it (default action on SIGTERM)
+ *   every environment variable whose name begins with "C09E_" is written as NAME=VALUE, NUL-terminated, to "<file>.env"
  */
 #include <stdio.h>
 #include <stdlib.h>
 #include <string.h>
 #include <unistd.h>
 #include <signal.h>
+#include <sys/resource.h>
+#include <sys/wait.h>
+
+extern char **environ;
 
 static int l_TermExit = 0;
 
@@ -47,6 +55,14 @@ int main(int argc, char **argv)
 		snprintf(tmp, sizeof tmp, "%s.pid", out);
 		FILE *p = fopen(tmp, "w");
 		if (p) { fprintf(p, "%ld\n", (long)getpid()); fclose(p); }
+		snprintf(tmp, sizeof tmp, "%s.env", out);
+		FILE *e = fopen(tmp, "w");
+		if (e) {
+			for (char **ep = environ; *ep; ep++)
+				if (!strncmp(*ep, "C09E_", 5))
+					fwrite(*ep, 1, strlen(*ep) + 1, e);
+			fclose(e);
+		}
 		snprintf(tmp, sizeof tmp, "%s.tmp", out);
 		FILE *f = fopen(tmp, "w");
 		if (f) {
@@ -64,6 +80,30 @@ int main(int argc, char **argv)
 			putchar(a * 16 + b);
 		}
 		fflush(stdout);
+	}
+	if (term && term[0] == 'r' && term[1] >= '0' && term[1] <= '9') {
+		int sig = atoi(term + 1);
+		struct rlimit rl = { 0, 0 };
+		setrlimit(RLIMIT_CORE, &rl);
+		signal(sig, SIG_DFL);
+		raise(sig);
+		pause();
+	}
+	if (term && !strcmp(term, "fk") && out) {
+		pid_t c = fork();
+		if (c == 0) {
+			char tmp[4096];
+			snprintf(tmp, sizeof tmp, "%s.pid", out);
+			FILE *p = fopen(tmp, "w");
+			if (p) { fprintf(p, "%ld\n", (long)getpid()); fclose(p); }
+			long ds = sl ? atol(sl) : 0;
+			for (long k = 0; k < ds; k++)
+				usleep(100000);
+			_exit(0);
+		}
+		int st;
+		while (waitpid(c, &st, 0) < 0) { }
+		return ex ? atoi(ex) : 0;
 	}
 	if (sl) {
 		long ds = atol(sl);
